@@ -1226,10 +1226,28 @@ func (s *sharedEntryAttributes) ImportConfig(ctx context.Context, t importer.Imp
 
 // validateMandatory validates that all the mandatory attributes,
 // defined by the schema are present either in the tree or in the index.
+// remainsOnlyThroughDefaults returns true if all the childs that remain to exist are leafs that carry their schema default.
+func (s *sharedEntryAttributes) remainsOnlyThroughDefaults(ctx context.Context) bool {
+	for _, c := range s.filterActiveChoiceCaseChilds() {
+		if !c.remainsToExist() {
+			continue
+		}
+		le, err := c.getHighestPrecedenceLeafValue(ctx)
+		if err != nil || le == nil || le.Owner() != DefaultsIntentName {
+			return false
+		}
+	}
+	return true
+}
+
 func (s *sharedEntryAttributes) validateMandatory(ctx context.Context, resultChan chan<- *types.ValidationResultEntry) {
 	if s.schema != nil {
 		switch s.schema.GetSchema().(type) {
 		case *sdcpb.SchemaElem_Container:
+			// a presence container that is not set itself and in which nothing but schema defaults remain, does not exist
+			if s.schema.GetContainer().GetIsPresence() && !s.leafVariants.remainsToExist() && s.remainsOnlyThroughDefaults(ctx) {
+				return
+			}
 			for _, c := range s.schema.GetContainer().GetMandatoryChildrenConfig() {
 				s.validateMandatoryWithKeys(ctx, len(s.GetSchema().GetContainer().GetKeys()), c.Name, resultChan)
 			}
